@@ -176,32 +176,77 @@ fn build_patches_recursive<T: SizedType>(
                 }
             }
 
-            // Find matching using LCS
             let old_c_with_id: Vec<_> = old_children.iter().enumerate().collect();
             let new_c_with_id: Vec<_> = new_children.iter().enumerate().collect();
 
-            let lcs_results = lcs_by_score(
+            // Partial match score of a pair of children: the number of patches it carries over.
+            let patch_score = |oid: &usize, nid: &usize| {
+                child_patches_map
+                    .iter()
+                    .find(|((o, n), _, _)| o == oid && n == nid)
+                    .map(|(_, _, score)| *score)
+                    .unwrap_or(0.0)
+            };
+
+            // First anchor the children whose shape is completely identical: a partial match
+            // (several small patches) must never displace the exact match of an unchanged subtree.
+            let anchors = lcs_by_score(
                 &old_c_with_id,
                 &new_c_with_id,
-                |(oid, _old), (nid, _new)| {
-                    child_patches_map
-                        .iter()
-                        .find(|((o, n), _, _)| o == oid && n == nid)
-                        .map(|(_, _, score)| *score)
-                        .unwrap_or(0.0)
+                |(_, old), (_, new)| {
+                    if nodes_match(old, new) { 1.0 } else { 0.0 }
                 },
             );
 
-            // Collect patches based on LCS results
-            let mut c_patches = HashSet::new();
-            for result in &lcs_results {
+            // Then match the remaining children between two consecutive anchors by their partial score.
+            let mut matched = Vec::new();
+            let (mut old_from, mut new_from) = (0, 0);
+            let match_gap = |old_from: usize,
+                             new_from: usize,
+                             old_to: usize,
+                             new_to: usize,
+                             matched: &mut Vec<(usize, usize)>| {
+                let gap = lcs_by_score(
+                    &old_c_with_id[old_from..old_to],
+                    &new_c_with_id[new_from..new_to],
+                    |(oid, _old), (nid, _new)| patch_score(oid, nid),
+                );
+                for result in &gap {
+                    if let DiffResult::Common {
+                        old_index,
+                        new_index,
+                    } = result
+                    {
+                        matched.push((old_from + old_index, new_from + new_index));
+                    }
+                }
+            };
+            for result in &anchors {
                 if let DiffResult::Common {
                     old_index,
                     new_index,
                 } = result
-                    && let Some((_, patches, _)) = child_patches_map
-                        .iter()
-                        .find(|((o, n), _, _)| o == old_index && n == new_index)
+                {
+                    match_gap(old_from, new_from, *old_index, *new_index, &mut matched);
+                    matched.push((*old_index, *new_index));
+                    old_from = old_index + 1;
+                    new_from = new_index + 1;
+                }
+            }
+            match_gap(
+                old_from,
+                new_from,
+                old_children.len(),
+                new_children.len(),
+                &mut matched,
+            );
+
+            // Collect patches of the matched pairs
+            let mut c_patches = HashSet::new();
+            for (old_index, new_index) in &matched {
+                if let Some((_, patches, _)) = child_patches_map
+                    .iter()
+                    .find(|((o, n), _, _)| o == old_index && n == new_index)
                 {
                     c_patches.extend(patches.iter().cloned());
                 }
